@@ -69,6 +69,18 @@ class Interp:
             t = b["term"]
             if t["k"] == "Call" and not t["dest"]["p"]:
                 cand.discard(t["dest"]["l"])
+        # a drop flag is only ever tested; a bool that is used as a value (stored, passed, returned) is program data
+        used = set()
+        for b in mir["blocks"]:
+            for s in b["stmts"]:
+                if s["k"] == "Assign":
+                    mirq._rv_uses(s["rv"], used, set())
+            t = b["term"]
+            if t["k"] == "Call":
+                for a in t["args"]:
+                    mirq._operand_uses(a, used)
+        cand -= used
+        cand.discard(0)
         return set("_%d" % i for i in cand)
 
     # ----------------------------------------------------------------- places
@@ -84,6 +96,8 @@ class Interp:
                 v = env.get(k)
                 if isinstance(v, tuple) and v and v[0] == "r":
                     k = v[1]
+                elif isinstance(v, tuple) and v and v[0] in ("v", "c", "t"):
+                    pass  # a promoted `&CONST` held by value: dereferencing it is the identity
                 else:
                     k = k + ".*"
             elif isinstance(e, dict) and "f" in e:
@@ -138,7 +152,7 @@ class Interp:
                         env[parent + ".#"] = ("vn", pv[1])
                 del env[parent]
         tr = self.hooks.get("track")
-        if v is TOP or k in self.untracked or (tr is not None and not tr(k)):
+        if v is TOP or k in self.untracked or (tr is not None and k[0] != "@" and not tr(k)):
             env.pop(k, None)
         else:
             env[k] = v
@@ -146,11 +160,40 @@ class Interp:
     def write(self, place, v, env):
         self.write_key(self.key(place, env), v, env)
 
+    def _promoted(self, idx):
+        """Value of promoted constant #idx of this function (e.g. `&ErrorType::X`), dereferenced."""
+        cache = self.__dict__.setdefault("_prom_cache", {})
+        if idx in cache:
+            return cache[idx]
+        cache[idx] = TOP
+        proms = self.fn.get("promoted") or []
+        if idx < len(proms):
+            sub = Interp({"path": self.fn["path"] + "::promoted[%d]" % idx, "mir": proms[idx], "promoted": []}, hooks={"track": lambda k: True}, cap=2000)
+            try:
+                sub.run()
+            except StateCapExceeded:
+                return TOP
+            vals = set()
+            for env, _ts, _bi in sub.returns:
+                v = sub.read_key("_0", env)
+                if isinstance(v, tuple) and v and v[0] == "r":
+                    v = sub.read_key(v[1], env)
+                vals.add(v)
+            if len(vals) == 1:
+                cache[idx] = vals.pop()
+        return cache[idx]
+
     def operand(self, o, env):
         if "const" in o:
             c = o["const"]
             if "int" in c:
                 return const(c["int"])
+            txt = c.get("txt") or ""
+            if "::promoted[" in txt:
+                try:
+                    return self._promoted(int(txt.rsplit("::promoted[", 1)[1].split("]")[0]))
+                except ValueError:
+                    return TOP
             if c.get("fn"):
                 return ("fn", c["fn"], c.get("fn_resolved"))
             if c.get("ty") == "()":
@@ -182,6 +225,17 @@ class Interp:
         if k == "Discriminant":
             v = self.read(rv["place"], env)
             vn = None
+            if isinstance(v, tuple) and v and v[0] == "tag" and self.hooks.get("refine_tags"):
+                kk = "@tag:%r" % (v[1],)
+                known = env.get(kk)
+                vs = [(dv, n) for dv, n in rv.get("variants", [])]
+                if known and known[0] == "vn":
+                    for dv, n in vs:
+                        if n == known[1]:
+                            return const(dv)
+                if known and known[0] == "vs":
+                    vs = [(dv, n) for dv, n in vs if n in known[1]]
+                return ("disc", kk, tuple(vs), "tag")
             if is_variant(v):
                 vn = v[1]
             else:
@@ -242,7 +296,7 @@ class Interp:
         while work:
             bi, env, ts = work.pop()
             lv = live[bi]
-            env = {k: v for k, v in env.items() if int(k[1:].split(".", 1)[0]) in lv}
+            env = {k: v for k, v in env.items() if k[0] == "@" or int(k[1:].split(".", 1)[0]) in lv}
             sig = (freeze(env), ts)
             s = seen.setdefault(bi, set())
             if sig in s:
@@ -282,22 +336,30 @@ class Interp:
                             tgt = bb
                     work.append((tgt, env, ts))
                 elif isinstance(d, tuple) and d[0] == "disc":
-                    # refine the scrutinised place on every edge
-                    _tag, pk, variants = d
+                    # refine the scrutinised place (or the tag knowledge of a symbol) on every edge
+                    pk, variants = d[1], d[2]
+                    is_tag = len(d) > 3 and d[3] == "tag"
                     names = dict(variants)
                     taken = set()
                     for v, bb in t["targets"]:
+                        if is_tag and v not in names:
+                            continue  # excluded by what is already known about this tag
                         e2 = dict(env)
                         if v in names:
-                            cur = self.read_key(pk, e2)
-                            if not is_variant(cur, names[v]):
-                                e2[pk + ".#"] = ("vn", names[v])
+                            if is_tag:
+                                e2[pk] = ("vn", names[v])
+                            else:
+                                cur = self.read_key(pk, e2)
+                                if not is_variant(cur, names[v]):
+                                    e2[pk + ".#"] = ("vn", names[v])
                             taken.add(v)
                         work.append((bb, e2, ts))
                     rest = [n for dv, n in variants if dv not in taken]
                     if rest:
                         e2 = dict(env)
-                        if len(rest) == 1:
+                        if is_tag:
+                            e2[pk] = ("vn", rest[0]) if len(rest) == 1 else ("vs", frozenset(rest))
+                        elif len(rest) == 1:
                             e2[pk + ".#"] = ("vn", rest[0])
                         work.append((t["otherwise"], e2, ts))
                 elif isinstance(d, tuple) and d[0] == "pred":
@@ -367,6 +429,8 @@ class Interp:
             if is_variant(a0):
                 if a0[1] == "None":
                     return [(variant("None"), ts, None)]
+                if a0[1] == "Err" and a0[2] and a0[2][0] == ("uns",):
+                    return [(variant("Err", ("uns",)), ts, None)]  # error conversion keeps the error code
                 return [(variant("Err", TOP), ts, None)]
             full = t.get("full", "")
             if "core::option::Option<" in full.split(" as ")[0]:
